@@ -537,7 +537,15 @@ class Interp:
             return v.qual.split('.')[-1]
         if isinstance(v, Func):
             fa = getattr(v, 'fattrs', None)
-            if fa is not None and attr in fa:
+            if fa is None:
+                fa = v.fattrs = {}  # type: ignore[attr-defined]
+            if attr not in fa and isinstance(v.node, ast.FunctionDef) and v.cls is None and v.closure is None:
+                # `f.attr = <expr>` at module level (function attributes used as state), evaluated on first use
+                for st in self._top_level(v.mod.pm.tree.body):
+                    if isinstance(st, ast.Assign) and len(st.targets) == 1 and isinstance(st.targets[0], ast.Attribute) and st.targets[0].attr == attr \
+                            and isinstance(st.targets[0].value, ast.Name) and st.targets[0].value.id == v.node.name:
+                        fa[attr] = self.ev(st.value, Env(None, v.mod))
+            if attr in fa:
                 return fa[attr]
             raise PyRaise('AttributeError', (f'function has no attribute {attr}',))
         tables = ((str, _STR_METHODS), (bytes, _BYTES_METHODS), (list, _LIST_METHODS), (tuple, _TUPLE_METHODS), (dict, _DICT_METHODS),
@@ -1796,6 +1804,9 @@ DEFAULT_EXTERNALS: Dict[str, Any] = {
     're.sub': _re_call('sub'), 're.split': _re_call('split'), 're.escape': _re_call('escape'), 're.findall': _re_call('findall'),
     're.ASCII': _re.ASCII, 're.A': _re.A, 're.IGNORECASE': _re.IGNORECASE, 're.I': _re.I, 're.DOTALL': _re.DOTALL, 're.S': _re.S,
     're.UNICODE': _re.UNICODE, 're.U': _re.U, 're.MULTILINE': _re.MULTILINE, 're.M': _re.M, 're.VERBOSE': _re.VERBOSE, 're.X': _re.X,
+    'functools.lru_cache': Builtin('functools.lru_cache', lambda it, a, k: a[0] if (len(a) == 1 and not k and isinstance(a[0], (Func, Bound, Builtin)))
+                                   else Builtin('lru_cache(...)', lambda it2, a2, k2: a2[0])),
+    'functools.cache': Builtin('functools.cache', lambda it, a, k: a[0]),
     'operator.eq': Builtin('operator.eq', lambda it, a, k: it.py_eq(a[0], a[1])),
     'operator.ne': Builtin('operator.ne', lambda it, a, k: not it.py_eq(a[0], a[1])),
     'sys.intern': Builtin('sys.intern', lambda it, a, k: a[0]),
